@@ -182,13 +182,86 @@ def ff_defaults(eng, res, rule="R-FF-DEFAULTS"):
         res.ob(rule, "package", f"file:{fn}", f"the bundled {fn} exists", f"src/gbigsmiles/data/{fn}", ok)
 
 
+def ff_type_ids(eng, res, rule="R-FF-TYPE-ID"):
+    """rule -> type -> id -> type -> parameters: ids must be injective over types and the two dictionaries inverse."""
+    from ..pat import unify
+    from .c17 import locate
+
+    f = eng.prog.func("forcefield_helper.SMARTS_ASSIGNMENTS._read_smarts_rules")
+    res.unit(f)
+    flow = eng.flow(f)
+    cfg = flow.cfg
+    e, nd = locate(f, ["self._type_dict[$T] = $ID", "self._type_dict_rev[$ID] = $T", "self._rule_dict[$R] = $T"])
+    if e is None:
+        # setdefault spelling: injective iff the default is the size of the very table being keyed
+        e_sd, nd_sd = locate(f, ["$ID = self._type_dict.setdefault($T, $FRESH)", "self._type_dict_rev[$ID] = $T", "self._rule_dict[$R] = $T"])
+        if e_sd is not None:
+            sdn = nd_sd["$ID = self._type_dict.setdefault($T, $FRESH)"]
+            fresh = src(sdn.value.args[1])
+            res.ob(rule, f, "tables", "every rule line records type -> id, id -> type (inverse) and rule -> type for the same type", f.node, True)
+            res.ob(rule, f, "ids-injective", "a new type gets a fresh id: the size of the very table being keyed (two types never share an id)", sdn, fresh == "len(self._type_dict)",
+                   f"fresh ids come from {fresh}, which does not grow with every new type: two types can share an id and the id -> type table is overwritten")
+            return
+    res.ob(rule, f, "tables", "every rule line records type -> id, id -> type (inverse) and rule -> type for the same type", f.node, e is not None, "statement pattern not found")
+    if e is None:
+        return
+    st = nd["self._type_dict[$T] = $ID"]
+    blk = getattr(st, "_parent")
+    same_block = all(getattr(nd[p], "_parent") is blk for p in nd)
+    res.ob(rule, f, "tables-lockstep", "the three tables are updated together, for every accepted line", st, same_block)
+    defs = flow.reaching(e["ID"], cfg.node_of(st))
+    kinds = []
+    ok = True
+    why = ""
+    for d in defs:
+        v = src(d.value) if d.value is not None else d.kind
+        if v == f"self._type_dict[{e['T']}]":
+            kinds.append("existing")
+        elif v == "len(self._type_dict)":
+            kinds.append("fresh:size-of-same-table")
+        elif isinstance(d.value, ast.Name) and flow.is_local(d.value.id):
+            c = d.value.id
+            cdefs = [x for x in flow.defs if x.name == c]
+            inits = [x for x in cdefs if x.kind == "assign"]
+            incs = [x for x in cdefs if x.kind == "aug"]
+            good = len(inits) == 1 and isinstance(inits[0].value, ast.Constant) and not cfg.enclosing_loops(inits[0].stmt) \
+                and len(incs) == 1 and isinstance(incs[0].extra, ast.Add) and src(incs[0].value) == "1" \
+                and getattr(incs[0].stmt, "_parent") is getattr(d.stmt, "_parent") and cfg.node_of(incs[0].stmt) in cfg.reachable([d.nid])
+            kinds.append("fresh:counter" if good else f"counter-not-in-lockstep:{c}")
+            ok = ok and good
+        else:
+            kinds.append(f"other:{v[:40]}")
+            ok = False
+    ok = ok and "existing" in kinds and any(k.startswith("fresh") for k in kinds) and len(kinds) == 2
+    res.ob(rule, f, "ids-injective", "a type keeps its id; a new type gets a fresh id from a counter advanced exactly when it is handed out (or the size of the same table) — two types never share an id",
+           st, ok, f"id sources: {kinds}")
+    # look-up chain
+    g = eng.prog.func("forcefield_helper.SMARTS_ASSIGNMENTS.get_ffparam")
+    res.unit(g)
+    rets = [src(r.value) for r in own_nodes(g.node) if isinstance(r, ast.Return)]
+    res.ob(rule, g, "param-lookup", "parameters are looked up by the type name resolved from the id", g.node, rets == [f"self._type_param[self.get_type({g.params[1]})]"], f"{rets}")
+    h = eng.prog.func("forcefield_helper.SMARTS_ASSIGNMENTS.get_type")
+    res.unit(h)
+    rets = [src(r.value) for r in own_nodes(h.node) if isinstance(r, ast.Return)]
+    p1 = h.params[1]
+    res.ob(rule, h, "type-lookup", "get_type maps an id to its type name (reverse table first) and a name to its id", h.node,
+           rets[:2] == [f"self._type_dict_rev[{p1}]", f"self._type_dict[{p1}]"], f"{rets}")
+    # parameter table keyed by type name, only for known types, one record per name with the element's mass column
+    nb = eng.prog.func("forcefield_helper.SMARTS_ASSIGNMENTS._read_nb_param")
+    res.unit(nb)
+    e2, nd2 = locate(nb, ["self._type_param[$L[0]] = FFParam(mass=$M, charge=$C, sigma=$S, epsilon=$E, bond_type_name=$B)", "$M = float($L[3])", "if $L[0] in self._type_dict"])
+    res.ob(rule, nb, "param-table", "one parameter record per known type name, its mass read from the mass column of that type's own line", nb.node, e2 is not None)
+
+
 def check(eng, res):
+    res.doc("R-FF-TYPE-ID", "type ids are injective (counter in lockstep with new types), the id and name tables are inverse, parameters are looked up through them")
     res.doc("R-FF-ROLE", "argument-role dataflow in get_assignment_class: constructor roles, cache key pairs, every compared variable assigned")
     res.doc("R-FF-GUARDS", "partial molecules refused before typing; hydrogens added; dedicated error from the partial dictionary, molecule attached, re-raised; typing read-only")
     res.doc("R-FF-DEFAULTS", "None resolves to the bundled files, which are package data")
     ff_role(eng, res)
     ff_guards(eng, res)
     ff_defaults(eng, res)
+    ff_type_ids(eng, res)
     g = eng.prog.func("forcefield_helper.SMARTS_ASSIGNMENTS.get_type_assignments")
     for n in own_nodes(g.node):
         if isinstance(n, ast.Expr) and isinstance(n.value, ast.Call) and callee_name(n.value) in ("RuntimeError", "ValueError", "Exception"):
